@@ -14,6 +14,18 @@ pub fn c14_burst() {
     process_request("set k 4", &cl.nodes[0].dbs, &mut c0);
     process_request("set k 5", &cl.nodes[0].dbs, &mut c0);
     vsym::assume(cl.settle(120, false).is_some());
+    // optional primary hand-over before the operation: the old primary n1 stays in the cluster as a secondary (it yielded to the
+    // older candidate: election_eval), n2 claims the role with the real election_win, the supervisors and SetPrimary handlers do the rest
+    let mut prim = 0;
+    if vsym::param("handover", 0) == 1 {
+        cl.supervise = true;
+        cl.nodes[0].dbs.node_state.swap(ClusterRole::Secoundary as usize, vstd::sync::atomic::Ordering::Relaxed);
+        crate::election_ops::election_win(&cl.nodes[1].dbs);
+        vsym::assume(cl.settle(200, false).is_some());
+        prim = 1;
+        vsym::check("handover.one-primary", cl.nodes[1].dbs.is_primary() && !cl.nodes[0].dbs.is_primary());
+        vsym::cover("handover.done", true);
+    }
     // an arbiter session at a solver-chosen node (conflicts are then recorded and forwarded instead of refused)
     let arb_at = vsym::choice("arbiter-at", cl.nodes.len() + 1);
     vsym::tag_i("arbiter-at", arb_at as i64);
@@ -22,7 +34,7 @@ pub fn c14_burst() {
     vsym::assume(cl.settle(80, false).is_some());
     let base = cl.inter_node_messages();
     let mut l = 0; let mut base_sec = 0;
-    while l < cl.links.len() { if cl.links[l].from != 0 && cl.links[l].to != 0 { base_sec += cl.links[l].forwarded; } l += 1; }
+    while l < cl.links.len() { if cl.links[l].from != prim && cl.links[l].to != prim { base_sec += cl.links[l].forwarded; } l += 1; }
     // one client operation at a solver-chosen node
     let at = vsym::choice("node", cl.nodes.len());
     vsym::tag_i("node", at as i64);
@@ -41,6 +53,6 @@ pub fn c14_burst() {
         vsym::tag_i("messages", msgs as i64);
     }
     let mut l = 0; let mut sec = 0;
-    while l < cl.links.len() { if cl.links[l].from != 0 && cl.links[l].to != 0 { sec += cl.links[l].forwarded; } l += 1; }
+    while l < cl.links.len() { if cl.links[l].from != prim && cl.links[l].to != prim { sec += cl.links[l].forwarded; } l += 1; }
     vsym::check("burst.secondary-never-fans-out", sec == base_sec);
 }
